@@ -9,7 +9,8 @@ ASSUMPTIONS = ['checked build (overflow-checks and debug-assertions on), as the 
                'a kernel finding (panic / wrong value / budget overrun on a function driven directly) is reported only if the same inputs submitted as source text through Context::interpret abort, hang or misbehave natively; otherwise it is listed as kernel-only in the evidence']
 
 def bounds(tier):
-    return {'factorial': 'x in {0,1,3,5}; order (number of "!") symbolic over 1..2^20 (inputs of up to 1 MiB of "!")',
+    return {'tokenizer': 'every string of 1..2 (thorough: 3) characters over a 38-character alphabet (operators, brackets, whitespace, digits, quote, comment sign) plus 14 Unicode operator characters in every position of 2- (thorough: 3-) character strings',
+            'factorial': 'x in {0,1,3,5}; order (number of "!") symbolic over 1..2^20 (inputs of up to 1 MiB of "!")',
             'exponent / dtype kernels': 'two symbolic integer exponents g*2^74 with |g| <= 2^52 (up to 2^126, exactly expressible as numeric literals); %d paths per operation (bounded exploration)' % (30 if tier == 'quick' else 400),
             'instruction_budget_per_path': 20_000_000}
 
@@ -20,12 +21,15 @@ def _inputs(rnd, case):
     if case['id'].startswith('x'): c['u0'] = rnd.choice([1, 2, 3, 4, 5, 6, 100, 65535])
     return c
 
+from . import common
+
 def plan(tier, rnd, units):
     npaths = 30 if tier == 'quick' else 400
     fact = [{'id': 'x%s' % x, 'label': '%s followed by a symbolic number of "!"' % x, 'cfg': {0: x, 1: '1'}} for x in ('0', '1', '3', '5')]
     ops = ['power-of-power', 'mul-merge']
     dops = ['try-multiply', 'try-divide', 'try-power', 'multiply']
     return [
+        common.tokenizer_job(tier),
         {'entry': 'h_c08_factorial', 'cases': fact, 'opts': {'mode': 'replay', 'max_paths': 2000, 'instr_budget': 20_000_000, 'query_timeout_ms': 10000},
          'panic_is_violation': True, 'bound_is_violation': True, 'confirm_entry': 'h_c08_factorial_text', 'expect_covers': ['c08-factorial-evaluated'], 'selftest_inputs': _inputs},
         {'entry': 'h_c08_exponent', 'cases': [{'id': 'exp-' + o, 'label': o, 'cfg': {0: o}} for o in ops],
